@@ -15,6 +15,9 @@ argument) over the L1 chain model `XV.Chain` (`admitTx` / `applyTx`):
 * the graph: it contains the producer → consumer edges and the reader → overwriter edges, and nothing else;
 * replay: a pool admitted one by one in some order is admissible, with the same final tables, in every order that
   respects the edges (commutation of independent admissions), in particular in every order the pool can yield;
+* the block layout award, timer transaction, pool: replayable when no pool transaction has an edge into the timer
+  transaction (`block_with_timer_replayable`); the unrestricted statement is false of the code as it is (the timer
+  transaction is generated on the live state and may cite a pending writer that stands after it);
 * the graph of the code before repair `eb76c54` admits the order (W, R), which no replica can replay.
 -/
 namespace XV.C13
@@ -329,6 +332,51 @@ theorem block_replayable (s sP : St) (lh : Int) (adm ord : List Tx) (aw : Tx)
     rw [hva, no_edge_into_award u aw hi hk] at he
     simp at he
 
+/-- **the block layout with a timer transaction** (award, timer transaction, then the pool in any order that respects
+the edges): the producer applied the pool in admission order and applies the award and the timer transaction last
+(`PlayForMiner`; the timer transaction was generated on the producer's live state, i.e. after the pool). A replica that
+applies award, timer transaction and then the pool reaches the same tables — PROVIDED no pool transaction has an edge
+into the timer transaction: it read no key version a pending transaction wrote, and it overwrites no key version a
+pending transaction only read. (Edges from the timer transaction to pool transactions need no hypothesis: it stands
+first.) -/
+theorem block_with_timer_replayable (s sP : St) (lh : Int) (adm ord : List Tx) (aw tm : Tx)
+    (hi : aw.ins = []) (hk : aw.kin = [])
+    (hperm : adm.Perm ord) (hids : (ids (adm ++ [aw, tm])).Nodup) (hfresh : FreshU s (ids (adm ++ [aw, tm])))
+    (hadm : admitAll s lh (adm ++ [aw, tm]) = some sP)
+    (hord : ∀ u ∈ adm, ∀ v ∈ adm, edge u v = true → Before (ids ord) u.id v.id)
+    (hfree : ∀ u ∈ adm ++ [tm], edge u tm = false) :
+    ∃ sR, admitAll s lh (aw :: tm :: ord) = some sR ∧ Equiv sP sR := by
+  have hp : (adm ++ [aw, tm]).Perm (aw :: tm :: ord) :=
+    List.perm_append_comm.trans ((hperm.cons tm).cons aw)
+  refine replayable s sP lh (adm ++ [aw, tm]) (aw :: tm :: ord) hp hids hfresh hadm ?_
+  intro u hu v hv he
+  have hcase : ∀ x, x ∈ adm ++ [aw, tm] → x ∈ adm ∨ x = aw ∨ x = tm := by
+    intro x hx
+    rcases List.mem_append.mp hx with h | h
+    · exact Or.inl h
+    · simp only [List.mem_cons, List.not_mem_nil, or_false] at h
+      exact Or.inr h
+  simp only [ids_cons]
+  rcases hcase v hv with hv1 | hv1 | hv1
+  · -- v is a pool transaction: pool before pool by `hord`; the award and the timer transaction stand in front
+    rcases hcase u hu with hu1 | hu1 | hu1
+    · exact ((hord u hu1 v hv1 he).cons tm.id).cons aw.id
+    · rw [hu1]
+      exact Before.head _ (List.mem_cons_of_mem _ (mem_ids (hperm.mem_iff.mp hv1)))
+    · rw [hu1]
+      exact (Before.head _ (mem_ids (hperm.mem_iff.mp hv1))).cons aw.id
+  · -- nothing precedes the award
+    rw [hv1, no_edge_into_award u aw hi hk] at he
+    simp at he
+  · -- v is the timer transaction: only the award may have an edge into it
+    rcases hcase u hu with hu1 | hu1 | hu1
+    · rw [hv1, hfree u (List.mem_append_left _ hu1)] at he
+      simp at he
+    · rw [hu1, hv1]
+      exact Before.head _ (List.mem_cons_self ..)
+    · rw [hu1, hv1, hfree tm (List.mem_append_right _ (List.mem_singleton.mpr rfl))] at he
+      simp at he
+
 -- ================================================================ 4. before the repair; non-vacuity
 
 /-- start state with key `k0` at version (1,0) and one unspent output -/
@@ -415,6 +463,33 @@ def txA : Tx := ⟨9, true, [], [⟨"m0", 50, 0⟩], [], []⟩
 example :
     (admitAll s0 0 ([txR, txW, txX, txY] ++ [txA])).isSome ∧ (admitAll s0 0 (txA :: [txX, txR, txW, txY])).isSome ∧
     (ids ([txR, txW, txX, txY] ++ [txA])).Nodup ∧ txA.ins = [] ∧ txA.kin = [] := by decide
+
+/-- the full statement for blocks with a timer transaction, without the hypothesis of `block_with_timer_replayable`:
+whatever the producer applied as pool, award, timer transaction is admissible as award, timer transaction, pool -/
+def timer_block_statement : Prop :=
+  ∀ (s : St) (adm : List Tx) (aw tm : Tx), aw.ins = [] → aw.kin = [] → tm.ins = [] → tm.outs = [] →
+    (admitAll s 0 (adm ++ [aw, tm])).isSome → (admitAll s 0 (aw :: tm :: adm)).isSome
+
+/-- the timer transaction generated on the live state after the pending writer `W` of `k0`: it reads `k0` at the version
+`W` wrote -/
+def txT : Tx := ⟨10, false, [], [], [⟨"k0", some (6, 0)⟩, ⟨"z0", none⟩], [⟨"z0", "x", false⟩]⟩
+
+/-- **false of the code as it is** (`GetTimerTx` runs on the producer's live state, `packBlock` puts the timer
+transaction in front of the pool): the timer transaction cites a key version whose writer stands after it in the
+block, and no replica admits it (known finding `timer-tx-cites-later-transaction`) -/
+theorem timer_block_counterexample : ¬ timer_block_statement := by
+  intro h
+  have := h s0 [txW] txA txT (by decide) (by decide) (by decide) (by decide) (by decide)
+  revert this
+  decide
+
+-- `block_with_timer_replayable`: a timer transaction that touches only its own key has no edge from the pool
+def txT' : Tx := ⟨10, false, [], [], [⟨"z0", none⟩], [⟨"z0", "x", false⟩]⟩
+example :
+    (admitAll s0 0 ([txR, txW, txX, txY] ++ [txA, txT'])).isSome ∧
+    (admitAll s0 0 (txA :: txT' :: [txX, txR, txW, txY])).isSome ∧
+    (ids ([txR, txW, txX, txY] ++ [txA, txT'])).Nodup ∧
+    (∀ u ∈ [txR, txW, txX, txY] ++ [txT'], edge u txT' = false) ∧ edge txW txT = true := by decide
 
 -- an acyclic and a cyclic raw graph: sorted / refused under every listed iteration order
 example : Acyclic { nodes := [1, 2, 3], edges := [(1, 2), (2, 3), (1, 3)] } :=
